@@ -34,7 +34,7 @@ def run_programs(chk, n):
         chk.branch(list(g.features.keys()) + ["mode:" + ("isolated" if p["isolated"] else "django")])
     reps = rc.batch(progs)
     for p, (rep, sp) in zip(progs, reps):
-        real = tplgen.run_real(p, limit=3.0)
+        real = tplgen.run_real(p, limit=20.0)
         chk.count("programs", 1, validated=1)
         chk.errkind(real["err"] or "ok")
         chk.nontrivial(real["out"] or real["err"])
@@ -101,7 +101,7 @@ def run_directed(chk, n):
         p = {"isolated": r.random() < 0.5, "lib": [wrapper, mid, consumer], "entry": {"page": page},
              "ctx": [["xs", {"l": [tplgen.sval("L1"), tplgen.sval("L2")]}]], "raise": None}
         (rep, sp), = rc.batch([p])
-        real = tplgen.run_real(p, limit=3.0)
+        real = tplgen.run_real(p, limit=20.0)
         chk.count("directed", 1, validated=1)
         chk.branch(["schema:%d" % schema])
         chk.nontrivial(real["out"] or real["err"])
@@ -117,7 +117,7 @@ def run_histories(chk, n):
         for j in range(k):
             g = tplgen.Gen(core.rng(PROP, "histories-%d" % i, j), PROFILE)
             progs.append(g.program(isolated=isolated))
-        solo = [tplgen.run_real(p, limit=3.0) for p in progs]
+        solo = [tplgen.run_real(p, limit=20.0) for p in progs]
         if any(s["err"] in rc.DIVERGE for s in solo):
             continue
         # the model of the code for the same history (one world); every program has its own library,
@@ -126,7 +126,7 @@ def run_histories(chk, n):
         tplgen._counter[0] = 0
         seq = []
         for p in progs:
-            seq.append(tplgen.run_real(p, census_clear=False, reset_ids=False, limit=3.0))
+            seq.append(tplgen.run_real(p, census_clear=False, reset_ids=False, limit=20.0))
         tplgen.clear_census()
         chk.count("histories", 1, validated=k)
         for j, (p, s, h) in enumerate(zip(progs, solo, seq)):
@@ -148,7 +148,7 @@ def run_fixed(chk):
     for isolated in (True, False):
         p = dict(w["program"], isolated=isolated)
         (rep, sp), = rc.batch([p])
-        real = tplgen.run_real(p, limit=3.0)
+        real = tplgen.run_real(p, limit=20.0)
         chk.count("fixed-defect", 1, validated=1)
         rc.classify(chk, "fixed-defect", p, real, rep, sp, [])
 
